@@ -19,6 +19,7 @@ import (
 	"strconv"
 	"strings"
 	"sync"
+	"sync/atomic"
 	"time"
 
 	"github.com/hyperjumptech/grule-rule-engine/ast"
@@ -47,13 +48,15 @@ type Case struct {
 
 // CallCfg configures one Execute / FetchMatchingRules call.
 type CallCfg struct {
-	Mode     string `json:"mode"` // exec | fetch
-	World    *World `json:"world"`
-	Max      uint64 `json:"max"`
-	Flag     bool   `json:"flag"`     // ReturnErrOnFailedRuleEvaluation
-	CancelAt int    `json:"cancelAt"` // observable point at which the context is cancelled (-1 never, 0 before the call)
-	Deadline bool   `json:"deadline"` // use an already expired deadline instead of cancel (CancelAt == 0)
-	LookAt   int    `json:"lookAt"`   // the context reports the cancellation from the LookAt-th time the engine consults it (0 never): reaches the
+	Mode        string `json:"mode"` // exec | fetch
+	World       *World `json:"world"`
+	Max         uint64 `json:"max"`
+	Flag        bool   `json:"flag"`        // ReturnErrOnFailedRuleEvaluation
+	CancelAt    int    `json:"cancelAt"`    // observable point at which the context is cancelled (-1 never, 0 before the call)
+	Deadline    bool   `json:"deadline"`    // use an already expired deadline instead of cancel (CancelAt == 0)
+	FarDeadline bool   `json:"farDeadline"` // the context also has a deadline far in the future (cancellation is still explicit)
+	LateTimer   bool   `json:"lateTimer"`   // the context's deadline has passed by the clock but its timer has not fired yet: Err() is still nil, the run is NOT cancelled
+	LookAt      int    `json:"lookAt"`      // the context reports the cancellation from the LookAt-th time the engine consults it (0 never): reaches the
 	// points between two looks that no callback marks (e.g. between the engine's own check and the one inside RuleEntry.Evaluate)
 	Shadow bool `json:"shadow"` // run the same call once more on a fresh instance WITHOUT any listener and report its outcome with the return
 	NestAt int  `json:"nestAt"` // the NestAt-th fact-method call of the run executes another, independent rule set on the SAME engine value (0 never)
@@ -124,7 +127,7 @@ func preRun(dc ast.IDataContext) {
 // shadowRun executes the first call of the case on a fresh instance with NO listener registered: what a run does
 // may not depend on whether anybody watches it (C06: any number of registered listeners).
 func shadowRun(c *Case, cc *CallCfg, watchdog time.Duration) (J, string, bool) {
-	kb, err := BuildInstance(c)
+	kb, err := safeBuild(c)
 	if err != nil {
 		return nil, "", false
 	}
@@ -214,6 +217,15 @@ func (c *lookCtx) Err() error {
 	c.onLook(where)
 	return c.Context.Err()
 }
+
+// lateCtx: a deadline that has passed by the clock while the context's own timer has not fired yet (a real, if short, state of
+// every deadline context under load). Err() is nil and Done() is open: the run is not cancelled and must go on as usual.
+type lateCtx struct {
+	context.Context
+	at time.Time
+}
+
+func (c *lateCtx) Deadline() (time.Time, bool) { return c.at, true }
 
 func nestedRun(eng *engine.GruleEngine) {
 	nestMu.Lock()
@@ -415,10 +427,25 @@ func BuildInstance(c *Case) (*ast.KnowledgeBase, error) {
 	return kb, nil
 }
 
+// safeBuild: a panic while the library is built, stored, loaded or instantiated is a failed set-up (reported as such), not
+// the end of the driver.
+func safeBuild(c *Case) (kb *ast.KnowledgeBase, err error) {
+	defer func() {
+		if r := recover(); r != nil {
+			kb, err = nil, fmt.Errorf("instance: panic: %v", r)
+		}
+	}()
+	return BuildInstance(c)
+}
+
+// hangs counts the calls of this process that did not return: each leaves a goroutine behind (possibly holding a lock of the
+// instance), so after a few of them the remaining calls are not run any more - the hangs themselves are reported.
+var hangs int32
+
 // RunCase executes every call of the case on one instance and emits one begin..ret section per call.
 // It returns an error only for harness-level problems (the case could not be set up).
 func RunCase(c *Case, em *Emitter, watchdog time.Duration) error {
-	kb, err := BuildInstance(c)
+	kb, err := safeBuild(c)
 	if err == errExpectedReject {
 		return err
 	}
@@ -433,6 +460,9 @@ func RunCase(c *Case, em *Emitter, watchdog time.Duration) error {
 // RunCalls executes the calls of the case on an instance that already exists.
 func RunCalls(c *Case, kb *ast.KnowledgeBase, em *Emitter, watchdog time.Duration) {
 	for ci := range c.Calls {
+		if atomic.LoadInt32(&hangs) >= 6 {
+			return
+		}
 		runCall(c, ci, kb, em, watchdog)
 	}
 }
@@ -448,6 +478,13 @@ func runCall(c *Case, ci int, kb *ast.KnowledgeBase, em *Emitter, watchdog time.
 	}
 	ctx, cancel := context.WithCancel(context.Background())
 	defer cancel()
+	if cc.FarDeadline {
+		ctx, cancel = context.WithTimeout(context.Background(), time.Hour)
+		defer cancel()
+	}
+	if cc.LateTimer {
+		ctx = &lateCtx{Context: ctx, at: time.Now().Add(-time.Millisecond)}
+	}
 	if cc.Deadline {
 		var c2 context.CancelFunc
 		ctx, c2 = context.WithDeadline(context.Background(), time.Now().Add(-time.Second))
@@ -539,7 +576,7 @@ func runCall(c *Case, ci int, kb *ast.KnowledgeBase, em *Emitter, watchdog time.
 				r.sal = append(r.sal, re.Salience)
 				r.anyDel = r.anyDel || re.Deleted
 			}
-		} else if cc.UseCtx || cc.CancelAt >= 0 || cc.Deadline || cc.LookAt > 0 {
+		} else if cc.UseCtx || cc.CancelAt >= 0 || cc.Deadline || cc.LookAt > 0 || cc.FarDeadline || cc.LateTimer {
 			r.err = eng.ExecuteWithContext(ctx, dc, kb)
 		} else {
 			r.err = eng.Execute(dc, kb)
@@ -551,6 +588,7 @@ func runCall(c *Case, ci int, kb *ast.KnowledgeBase, em *Emitter, watchdog time.
 	case r = <-done:
 	case <-time.After(watchdog):
 		hung = true
+		atomic.AddInt32(&hangs, 1)
 	}
 	ret := J{"ev": "ret", "facts": w.Snapshot(), "rule": "", "what": ""}
 	switch {
